@@ -431,6 +431,7 @@ pub trait AsView: Layout {
         }
 
         let items = range.into_slice_items();
+        let n_items = items.as_ref().len();
         let sliced_shape: Vec<_> = items
             .as_ref()
             .iter()
@@ -440,6 +441,8 @@ pub trait AsView: Layout {
                 SliceItem::Index(_) => None,
                 SliceItem::Range(range) => Some(range.index_range(self.size(dim)).steps()),
             })
+            // Dimensions without a slice item are retained in full.
+            .chain((n_items..self.ndim()).map(|dim| self.size(dim)))
             .collect();
         let sliced_len = sliced_shape.iter().product();
         let mut sliced_data = pool.alloc(sliced_len);
